@@ -1,4 +1,4 @@
-From Verif Require Import Base.Sx Model.Kafka.
+From Verif Require Import Base.Sx Model.C10Entry.
 From Coq Require Import Extraction ExtrOcamlBasic.
-Definition run := c10_entry.
+Definition run := c10_full_entry.
 Extraction "model.ml" run.
